@@ -1739,26 +1739,32 @@ class MiniEval:
                     return False
                 left = right
             return True
-        if isinstance(n, (ast.ListComp, ast.GeneratorExp, ast.SetComp)) and len(n.generators) == 1 and not n.generators[0].is_async:
-            gen = n.generators[0]
-            out = []
+        if isinstance(n, (ast.ListComp, ast.GeneratorExp, ast.SetComp, ast.DictComp)) and not any(g.is_async for g in n.generators):
+            # any number of `for` clauses with conditions; the outermost iterable is evaluated at once (as in Python), a generator expression produces
+            # its items lazily - when the consumer (join / extend / list / a for loop) asks for them
             env2 = dict(env)
-            for x in list(_plain(self.expr(gen.iter, env))):
-                self._tick()
-                self.store(gen.target, x, env2)
-                if all(self.truth(self.expr(c, env2)) for c in gen.ifs):
-                    out.append(self.expr(n.elt, env2))
+            first = _iterable(_plain(self.expr(n.generators[0].iter, env)), "comprehension")
+
+            def items(level: int):
+                g = n.generators[level]
+                it = first if level == 0 else _iterable(_plain(self.expr(g.iter, env2)), "comprehension")
+                snapshot = isinstance(it, (list, tuple, dict, set, frozenset, str, bytes, bytearray, range)) or type(it).__name__ in ("dict_items", "dict_keys", "dict_values")
+                for x in (list(it) if snapshot else it):
+                    self._tick()
+                    self.store(g.target, x, env2)
+                    if all(self.truth(self.expr(c, env2)) for c in g.ifs):
+                        if level + 1 < len(n.generators):
+                            yield from items(level + 1)
+                        elif isinstance(n, ast.DictComp):
+                            yield (self.expr(n.key, env2), self.expr(n.value, env2))
+                        else:
+                            yield self.expr(n.elt, env2)
+            if isinstance(n, ast.GeneratorExp):
+                return items(0)
+            if isinstance(n, ast.DictComp):
+                return dict(items(0))
+            out = list(items(0))
             return set(out) if isinstance(n, ast.SetComp) else out
-        if isinstance(n, ast.DictComp) and len(n.generators) == 1:
-            gen = n.generators[0]
-            outd = {}
-            env2 = dict(env)
-            for x in list(_plain(self.expr(gen.iter, env))):
-                self._tick()
-                self.store(gen.target, x, env2)
-                if all(self.truth(self.expr(c, env2)) for c in gen.ifs):
-                    outd[self.expr(n.key, env2)] = self.expr(n.value, env2)
-            return outd
         if isinstance(n, ast.Lambda):
             return _Closure(n, env, self._cls_stack[-1] if self._cls_stack else None)
         if isinstance(n, ast.Call):
@@ -1908,6 +1914,23 @@ class MiniEval:
             return None
         if fname == "id" and len(args) == 1:
             return id(args[0])
+        if fname in ("map", "filter") and not local and not kw and len(args) >= 2 and not isinstance(self.find(fname), (ast.FunctionDef, ast.ClassDef)):
+            fn, its = args[0], [_iterable(_plain(a), fname + "()") for a in args[1:]]
+            if fname == "map":
+                def mapped():
+                    for xs in zip(*its):
+                        self._tick()
+                        yield self.call_value(fn, list(xs), {}, "map() function")
+                return mapped()
+            if len(its) != 1:
+                raise Raised("TypeError")
+
+            def kept():
+                for x in its[0]:
+                    self._tick()
+                    if self.truth(x if fn is None else self.call_value(fn, [x], {}, "filter() function")):
+                        yield x
+            return kept()
         if isinstance(n.func, ast.Name):
             if local:
                 return self.call_value(env[n.func.id], args, kw, n.func.id)
